@@ -183,13 +183,14 @@ def known_map_key_line_break(sc, g1, g2, what):
 
 
 def known_nil_pointer_with_default(sc, g1, g2, what):
-    """a pointer option was nil before the write and holds the value of its default tag after write + read + defaults"""
+    """an optional-argument option was empty (nil pointer, empty slice or map) before the write - it had been given bare after a
+    value - and holds the value of its default tags after write + read + defaults"""
     import re
-    m = re.match(r"option \S+ \(fid (\d+), type \('ptr', .*\) was pn, is p\(", what)
+    m = re.match(r"option \S+ \(fid (\d+), type .*\) was (pn|ln|l\[\]|mn|m\{\}), is ", what)
     if not m:
         return False
     ty_tag = _leaf_specs(sc).get(int(m.group(1)))
-    return bool(ty_tag) and b'default:"' in ty_tag[1]
+    return bool(ty_tag) and b'default:"' in ty_tag[1] and b'optional:"' in ty_tag[1]
 
 
 def _finding_text(match):
